@@ -8,6 +8,7 @@ import (
 
 	"github.com/berquerant/crd/desc"
 	"github.com/berquerant/crd/errorx"
+	"github.com/berquerant/crd/input/ast"
 	"github.com/berquerant/crd/note"
 	"github.com/berquerant/crd/op"
 	"github.com/spf13/cobra"
@@ -134,7 +135,7 @@ crd info chord describe -t "Caug" -s`,
 
 		noteString := tree.Degree.Degree.Value()
 		if a := tree.Degree.Accidental; a != nil {
-			noteString += a.Value()
+			noteString += ast.AccidentalValue(a)
 		}
 		root, err := note.ParseNote(noteString)
 		if err != nil {
